@@ -630,47 +630,67 @@ func keys(m map[int]bool) []int {
 func c12Grid(tier string, yield func(core.Scenario)) string {
 	n := 0
 	stores := []StoreCfg{{Kind: "mem"}, {Kind: "sqlite"}}
-	pubs := func(k int) []C12Step {
+	// mix: the two subscriptions are for different event shapes and the publishers alternate between the shapes, so
+	// the two subscriptions' positions in the log differ; the fresh bus's first publish is then of the second shape
+	pubs := func(k int, mix bool, first int) []C12Step {
 		var l []C12Step
 		for i := 0; i < k; i++ {
-			l = append(l, C12Step{Kind: "pub", Shape: 0})
+			sh := 0
+			if mix {
+				sh = (first + i) % 2
+			}
+			l = append(l, C12Step{Kind: "pub", Shape: sh})
 		}
 		return l
 	}
 	for _, st := range stores {
 		for _, sep := range []int{0, 1} {
-			for a := 1; a <= 2; a++ {
-				for b := 1; b <= 2; b++ {
-					for c := 1; c <= 2; c++ {
-						for f := 0; f < 5; f++ {
-							sc := &C12Scenario{Store: st, Subs: []int{0, 0}, SepSub: sep}
-							sub := []C12Step{{Kind: "sub", Sub: 0}}
-							sub3 := sub
-							if f == 4 {
-								sub3 = []C12Step{{Kind: "sub", Sub: 0}, {Kind: "sub", Sub: 1}} // a second id joins on the fresh bus
+			for _, mix := range []bool{false, true} {
+				for a := 1; a <= 2; a++ {
+					for b := 1; b <= 2; b++ {
+						for c := 1; c <= 2; c++ {
+							for f := 0; f < 5; f++ {
+								if mix && f != 1 && f != 4 {
+									continue
+								}
+								sc := &C12Scenario{Store: st, Subs: []int{0, 0}, SepSub: sep}
+								sub := []C12Step{{Kind: "sub", Sub: 0}}
+								sub3 := sub
+								if mix {
+									sc.Subs = []int{0, 1}
+									sub = []C12Step{{Kind: "sub", Sub: 0}, {Kind: "sub", Sub: 1}}
+									sub3 = sub
+								}
+								if f == 4 {
+									sub3 = []C12Step{{Kind: "sub", Sub: 0}, {Kind: "sub", Sub: 1}} // a second id joins on the fresh bus
+								}
+								sc.Incs = []C12Inc{
+									{Publisher: pubs(a+1, mix, 0), Subscriber: sub, CrashAtOp: -1, SubFirst: true},
+									{Publisher: pubs(b+1, mix, 0), CrashAtOp: -1},
+									{Publisher: pubs(c, mix, 1), Subscriber: sub3, CrashAtOp: -1, SubFirst: true},
+								}
+								if !mix {
+									sc.Incs[0].Publisher, sc.Incs[1].Publisher = pubs(a, false, 0), pubs(b, false, 0)
+								}
+								na, nb := len(sc.Incs[0].Publisher), len(sc.Incs[1].Publisher)
+								switch f {
+								case 1, 4:
+									sc.Fault = &C12Fault{Op: "append", K: na + nb}
+								case 2:
+									sc.Fault = &C12Fault{Op: "append", K: na + nb, Lost: true}
+								case 3:
+									sc.Fault = &C12Fault{Op: "append", K: na + nb + c - 1}
+								}
+								n++
+								yield(sc)
 							}
-							sc.Incs = []C12Inc{
-								{Publisher: pubs(a), Subscriber: sub, CrashAtOp: -1, SubFirst: true},
-								{Publisher: pubs(b), CrashAtOp: -1},
-								{Publisher: pubs(c), Subscriber: sub3, CrashAtOp: -1, SubFirst: true},
-							}
-							switch f {
-							case 1, 4:
-								sc.Fault = &C12Fault{Op: "append", K: a + b}
-							case 2:
-								sc.Fault = &C12Fault{Op: "append", K: a + b, Lost: true}
-							case 3:
-								sc.Fault = &C12Fault{Op: "append", K: a + b + c - 1}
-							}
-							n++
-							yield(sc)
 						}
 					}
 				}
 			}
 		}
 	}
-	return fmt.Sprintf("%d explicitly constructed restart histories (subscribe+publish, writer-only generation, fresh bus that catches up and whose first or last append fails or loses its acknowledgement, resume)", n)
+	return fmt.Sprintf("%d explicitly constructed restart histories (subscribe+publish, writer-only generation, fresh bus that catches up and whose first or last append fails or loses its acknowledgement, resume; one or two event shapes)", n)
 }
 
 var propC12 = &core.Property{ID: "C12", Gen: genC12, New: func() core.Scenario { return &C12Scenario{} }, Explicit: c12Grid}
